@@ -22,7 +22,7 @@ def orth_post(ctx, old, obj, nrm, mode, is_mpo, in_situ=False):
     n0 = float(np.linalg.norm(old['dense']))
     # natural scale: product of the tensor norms. An object whose dense norm is at rounding level relative to it (exact cancellation
     # between non-zero tensors) is numerically zero: only 'factor ~ 0, no exception' can be demanded there.
-    noise = 1e-13 * old['scale']
+    noise = (1e-5 if old['single'] else 1e-13) * old['scale']
     numerically_zero = 0 < n0 <= 100 * noise
     if numerically_zero:
         ctx.event('numerically_zero_object')
